@@ -94,7 +94,9 @@ class C19(Prop):
     level_note = ("Lean kernel + standard axioms for the checker; z3 (linear real arithmetic) is trusted for 'no axis is "
                   "feasible'; CBC solves the library's LP; floats are converted exactly to rationals")
     technique = "Lean-verified rational embedding checker + Lean model of the colouring stage; exact-oracle differential testing"
-    theorems = []
+    theorems = [
+        "PrefVerif.Specs.realises_iff",
+    ]
     rule = ("profiles over alternatives 1..m (m <= 5): Euclidean by construction (random generic positions), random "
             "strict profiles, single orders; storage order shuffled; oracle = z3 over all axes; non-trivial = >= 2 "
             "orders and >= 3 alternatives")
